@@ -40,14 +40,23 @@ func (v *Vue) evalVShow(ctx VueContext, n *html.Node) error {
 func (v *Vue) setStyleProperty(n *html.Node, property, value string) {
 	styleVal := helpers.GetAttr(n, "style")
 
-	// Parse existing styles
-	styleMap := parseStyleString(styleVal)
-	styleMap[property] = value
+	keys, values := parseStyleList(styleVal)
+	replaced := false
+	for i := range keys {
+		if keys[i] == property {
+			values[i] = value
+			replaced = true
+			break
+		}
+	}
+	if !replaced {
+		keys = append(keys, property)
+		values = append(values, value)
+	}
 
-	// Rebuild style string
 	var styles []string
-	for k, v := range styleMap {
-		styles = append(styles, k+":"+v+";")
+	for i, k := range keys {
+		styles = append(styles, k+":"+values[i]+";")
 	}
 	helpers.AppendAttr(n, "style", strings.Join(styles, ""))
 }
